@@ -27,6 +27,7 @@ var (
 	errInvalidMagicIdentifier          = DecodeError("invalid magic identifier")
 	errInvalidMetadataChunkLength      = DecodeError("invalid metadata chunk length")
 	errInvalidMetadataIdentifier       = DecodeError("invalid metadata identifier")
+	errMetadataIdentifierOrder         = DecodeError("metadata identifiers not in increasing order")
 	errInvalidNumber                   = DecodeError("invalid number")
 	errInvalidNumberOfMetadataChunks   = DecodeError("invalid number of metadata chunks")
 	errInvalidSuggestedPalette         = DecodeError("invalid suggested palette")
@@ -116,8 +117,9 @@ func decode(dst ivg.Destination, p printer, m *ivg.Metadata, metadataOnly bool, 
 	}
 	src = src[n:]
 
+	minMID := uint32(0)
 	for ; nMetadataChunks > 0; nMetadataChunks-- {
-		src, err = decodeMetadataChunk(p, m, src)
+		src, err = decodeMetadataChunk(p, m, src, &minMID)
 		if err != nil {
 			return err
 		}
@@ -142,7 +144,7 @@ func decode(dst ivg.Destination, p printer, m *ivg.Metadata, metadataOnly bool, 
 	return nil
 }
 
-func decodeMetadataChunk(p printer, m *ivg.Metadata, src buffer) (src1 buffer, err error) {
+func decodeMetadataChunk(p printer, m *ivg.Metadata, src buffer, minMID *uint32) (src1 buffer, err error) {
 	length, n := src.decodeNatural()
 	if n == 0 {
 		return nil, errInvalidMetadataChunkLength
@@ -160,6 +162,10 @@ func decodeMetadataChunk(p printer, m *ivg.Metadata, src buffer) (src1 buffer, e
 	if mid >= uint32(len(midDescriptions)) {
 		return nil, errUnsupportedMetadataIdentifier
 	}
+	if mid < *minMID {
+		return nil, errMetadataIdentifierOrder
+	}
+	*minMID = mid + 1
 	if p != nil {
 		p(src[:n], "Metadata Identifier: %d (%s)\n", mid, midDescriptions[mid])
 	}
